@@ -142,7 +142,18 @@ contract("dyn:BaseCodemod.apply", trusted=True,
                  [(f"only its own key of {f}", _OWN.format(f=f, t=t)) for f, t in
                   (("_changesets_by_codemod", "list[ChangeSet]"), ("_failures_by_codemod", "list[Path]"),
                    ("_unfixed_findings_by_codemod", "list[UnfixedFinding]"), ("dependencies", "set[Dependency]"))],
-         note="BaseCodemod.apply (dynamic dispatch): processes the files and merges results under its own id only (BaseCodemod._apply -> process_results, verified)")
+         note="BaseCodemod.apply (dynamic dispatch): processes the files and merges results under its own id only; BOTH overrides in the repository "
+              "(BaseCodemod.apply, RemediationCodemod.apply) are verified against these clauses")
+# the two concrete apply methods, verified against the dispatch contract above (they delegate to _apply, whose contract carries the clauses)
+for _qn, _self in (("codemodder.codemods.base_codemod.BaseCodemod.apply", _BC), ("codemodder.codemods.base_codemod.RemediationCodemod.apply", "RemediationCodemod")):
+    contract(_qn, props=["C09", "C17"], params={"self": _self, "context": _CX},
+             modifies=["context._changesets_by_codemod", "context._failures_by_codemod", "context._unfixed_findings_by_codemod",
+                       "context.dependencies", "ghost:fs", "ghost:events", "ghost:pool_bounds", "ghost:mapped"], raises_any=True,
+             ghost_exit={"events": "old(events) + ['A:' + self.id]"},
+             ensures=[("trace", "events == old(events) + ['A:' + self.id]")] +
+                     [(f"only its own key of {f}", _OWN.format(f=f, t=t)) for f, t in
+                      (("_changesets_by_codemod", "list[ChangeSet]"), ("_failures_by_codemod", "list[Path]"),
+                       ("_unfixed_findings_by_codemod", "list[UnfixedFinding]"), ("dependencies", "set[Dependency]"))])
 external("codemodder.codemodder.record_dependency_update", params={"dependency_results": "Opaque"}, note="logging only")
 external("codemodder.context.CodemodExecutionContext.log_changes", params={"self": _CX, "codemod_id": "str"}, note="logging only")
 spec("ev_seq", {"base": "list[str]", "codemods": "list[BaseCodemod]", "k": "int"}, "list[str]", recursive=True,
